@@ -928,9 +928,15 @@ class Vector():
 
 	def _unary_operation(self, op_func, op_name: str):
 		"""Helper function to handle unary operations on each element."""
+		# None propagates; the result is typed from its values (-True is the int -1)
+		values = tuple(None if x is None else op_func(x) for x in self)
+		if any(v is not None for v in values):
+			dtype = infer_dtype(values)
+		else:
+			dtype = self._dtype
 		return Vector(
-			tuple(op_func(x) for x in self),
-			dtype=self._dtype,
+			values,
+			dtype=dtype,
 			name=self._name,
 			as_row=self._display_as_row
 		)
@@ -957,7 +963,7 @@ class Vector():
 		# For boolean vectors, use logical NOT instead of bitwise NOT
 		if self._dtype and self._dtype.kind is bool:
 			return Vector(
-				tuple(not x for x in self),
+				tuple(None if x is None else (not x) for x in self),
 				dtype=self._dtype,
 				name=self._name,
 				as_row=self._display_as_row
